@@ -1022,6 +1022,26 @@ func findAllIndex(pat, name string, n int) [][]int {
 	return rx.FindAllStringIndex(name, n)
 }
 
+// findAnchoredIndex is like findAllIndex, but only for the longest match of
+// pat at the start of name, or at its end if atEnd is set.
+func findAnchoredIndex(pat, name string, atEnd bool) [][]int {
+	expr, err := pattern.Regexp(pat, 0)
+	if err != nil {
+		return nil
+	}
+	if atEnd {
+		// the left-most match reaching the end is the longest
+		expr = "(?:" + expr + ")$"
+	} else {
+		expr = "^(?:" + expr + ")"
+	}
+	rx := regexp.MustCompile(expr)
+	if loc := rx.FindStringIndex(name); loc != nil {
+		return [][]int{loc}
+	}
+	return nil
+}
+
 var (
 	rxGlobStar        = regexp.MustCompile(`^[^/.][^/]*$`)
 	rxGlobStarDotGlob = regexp.MustCompile(`^[^/]*$`)
